@@ -202,7 +202,9 @@ def make_quantity(kind, rng):
             arr = qq.MeasurementArray([1.5, -2.0], 0.25)
             # calculated results of every simple shape, negative factors and operands included (an uncertainty is a
             # non-negative number whatever the sign of the factor that scales it)
-            m = rng.choice([lambda: a * b, lambda: a - b, lambda: k * a, lambda: a * k, lambda: a / k, lambda: -a,
+            if rng.random() < 0.4:
+                qq.set_correlation(a, b, rng.choice([1, -1, 1.0, -1.0, 0.5, -0.75]))    # fully (anti)correlated sources too
+            m = rng.choice([lambda: a * b, lambda: a - b, lambda: a / b, lambda: -a - b, lambda: 2 * a - b, lambda: a + b, lambda: k * a, lambda: a * k, lambda: a / k, lambda: -a,
                             lambda: k / a, lambda: k - a, lambda: k * rep, lambda: arr[1] * k, lambda: (k * a) + b,
                             lambda: a ** 2, lambda: qq.sqrt(abs(k) * qq.Measurement(4.0, 0.5))])()
             if kind == "derived-mc":
@@ -540,8 +542,34 @@ def typed_number_cases():
     return out
 
 
+def item_assignment_cases():
+    """arr[i] = (value, error) / number / measurement with an invalid uncertainty: rejected AND the element unchanged"""
+    out = []
+    for pair in ((10, -0.6), (10, "x"), (10, None), ("x", 0.5), (10, -1e-9)):
+        for idx in (0, 1, -1):
+            CL.reset_world()
+            arr = q().MeasurementArray([1.0, 2.0, 3.0], 0.25, unit="m", name="t")
+            before = [(float(x.value), float(x.error), str(x.unit), str(x.name)) for x in arr]
+            try:
+                with warnings.catch_warnings():
+                    warnings.simplefilter("ignore")
+                    arr[idx] = pair
+                rejected = None
+            except Exception as ex:  # noqa
+                rejected = type(ex).__name__
+            after = [(float(x.value), float(x.error), str(x.unit), str(x.name)) for x in arr]
+            case = {"form": "setitem", "v": repr(pair), "e": idx}
+            if rejected and after != before:
+                out.append(("array", dict(case, data=[], error=None, rel=None),
+                            "arr[{}] = {!r} was rejected ({}) but changed the array from {} to {}".format(idx, pair, rejected, before, after)))
+            if any(not ok_number(x[1]) for x in after):
+                out.append(("array", dict(case, data=[], error=None, rel=None),
+                            "arr[{}] = {!r} ({}) leaves uncertainties {}".format(idx, pair, rejected or "accepted", [x[1] for x in after])))
+    return out
+
+
 def oracle_constructors(rng, n):
-    out = keyword_constructor_cases() + typed_number_cases()
+    out = keyword_constructor_cases() + typed_number_cases() + item_assignment_cases()
     for c in constructor_cases(rng, n):
         if c["out"] == "Accepted" and not ok_number(c["err"]):
             out.append(("ctor", c, "{} with ({}, {}) has uncertainty {}".format(
